@@ -126,6 +126,7 @@ def check(case):
             if Xk.shape != (exp_n[k], p):
                 raise Violation("bad_shape", "environment %d has shape %r, expected (%d, %d); %s" % (k, Xk.shape, exp_n[k], p, cctx))
             idx = {}
+            ranks = {}
             for i in range(p):
                 col = Xk[:, i]
                 pool = pristine[k][:, i]
@@ -146,12 +147,27 @@ def check(case):
                 if Q.shape != want_q.shape or not np.array_equal(Q, want_q):
                     raise Violation("query_not_synthetic_parents", "forest of node %d env %d was queried with something else than the final "
                                     "synthetic values of its parents %s (in increasing order); %s" % (i, k, pa[i], cctx))
+                ranks[i] = []
                 for r in range(len(Xk)):
                     w = fk.knn_weights(Xt, want_q[r])
                     support = set(Yt[w > 0].tolist())
+                    # which of the (up to 3) weighted training rows was picked: 0 = heaviest
+                    order = np.argsort(-w, kind="stable")
+                    ranks[i].append(int(np.where(Yt[order] == float(Xk[r, i]))[0][0]) if float(Xk[r, i]) in support else -1)
                     if float(Xk[r, i]) not in support:
                         raise Violation("not_markov", "node %d env %d row %d: value %r is not in the support %s that its forest gives for the "
                                         "synthetic parents %s; %s" % (i, k, r, float(Xk[r, i]), sorted(support), want_q[r].tolist(), cctx))
+            # every forest draws on its own: two non-source nodes must not pick "the same-ranked neighbour" in every row
+            # (probability of a coincidence under independent draws with weights .5/.3/.2: 0.38^n <= 2.5e-13 for n >= 30)
+            if exp_n[k] >= 30 and len(pristine[k]) >= 3:
+                nodes = sorted(ranks)
+                for a in range(len(nodes)):
+                    for b in range(a + 1, len(nodes)):
+                        if ranks[nodes[a]] == ranks[nodes[b]]:
+                            raise Violation("forest_draws_dependent", "nodes %d and %d of environment %d picked the same-ranked training row in all %d "
+                                            "synthetic rows: their forests share one random stream; %s" % (nodes[a], nodes[b], k, exp_n[k], cctx))
+                if len(nodes) >= 2:
+                    lab.append("forest_independence_checked")
             # sources are resampled independently of one another
             if exp_n[k] >= 20 and call.get("seed") is not None:
                 for a in range(len(sources)):
@@ -252,7 +268,7 @@ def net_case(draw):
     seeds = [draw(st.sampled_from([0, 1, 7]) | st.integers(0, 2 ** 32 - 1))]
     for c in range(draw(st.integers(2, 4))):
         nk = draw(st.sampled_from(["none", "int", "list", "int_big"]))
-        n = None if nk == "none" else draw(st.integers(1, 12)) if nk == "int" else 25 if nk == "int_big" else [draw(st.integers(1, 30)) for _ in range(e)]
+        n = None if nk == "none" else draw(st.integers(1, 12)) if nk == "int" else draw(st.sampled_from([25, 32, 40])) if nk == "int_big" else [draw(st.integers(1, 36)) for _ in range(e)]
         calls.append({"n": n, "seed": draw(st.sampled_from(seeds + seeds + [None])), "perturb": draw(st.sampled_from([None, 3, 99])),
                       "mutate_data": c >= 1 and draw(st.integers(0, 3)) == 0})
     # make sure one seeded configuration is repeated
